@@ -57,7 +57,8 @@ class C12(core.Check):
         'rel:from-end', 'rel:from-start', 'slice:same-page', 'slice:other-page', 'w:non-byte-multiple', 'w:byte-multiple',
         'expect:ACCEPT', 'expect:REJECT', 'muted-statement', 'second-step-of-a-macro', 'value-as-expression',
         'kind:valid_address/indirect_numeric', 'kind:valid_address/deferred_numeric', 'output:none', 'output:none+listing',
-        'kind:sliced-address/zone-ends-inside-the-page', 'numeric-keys-in:json', 'numeric-keys-in:yaml']}
+        'kind:sliced-address/zone-ends-inside-the-page', 'numeric-keys-in:json', 'numeric-keys-in:yaml',
+        'kind:relative_address/one-bound-only']}
 
     def one(self, conf, text, op, addr, tags, addr_bits=16, endian='big', zones=None, gz=None, origin=None, opcode_bits=8,
             fmt='json'):
@@ -145,6 +146,22 @@ class C12(core.Check):
                         t = ('{%d}' % tgt) if curly else str(tgt)
                         yield self.one(conf, t, {'id': 'o', 'val': tgt}, addr,
                                        ['kind:relative_address', 'pos:' + pos, 'rel:from-' + ('end' if from_end else 'start')])
+        # relative_address with one bound only: that bound holds, the other side is limited by the field width alone
+        for (bound, val, size) in [('max', 100, 8), ('max', 0, 8), ('max', -3, 8), ('min', -10, 8), ('min', 0, 8), ('min', 5, 8), ('max', 7, 4),
+                                   ('min', -2, 4)]:
+            for from_end in (False, True):
+                conf = {'type': 'relative_address', 'argument': {'size': size, 'byte_align': True, bound: val}}
+                if from_end:
+                    conf['offset_from_instruction_end'] = True
+                addr = 300
+                adj = (1 + (size + 7) // 8 - 1) if from_end else 0
+                far = ((1 << size) - 1) if bound == 'max' else -(1 << (size - 1))
+                for off, pos in [(val - 1, 'min-1' if bound == 'min' else 'inside'), (val, bound), (val + 1, 'max+1' if bound == 'max' else 'inside'),
+                                 (far, 'max+1' if bound == 'max' else 'min-1'), ((val + far) // 2, 'max+1' if bound == 'max' else 'min-1')]:
+                    tgt = addr + adj + off
+                    yield self.one(conf, str(tgt), {'id': 'o', 'val': tgt}, addr,
+                                   ['kind:relative_address', 'kind:relative_address/one-bound-only', 'pos:' + pos,
+                                    'rel:from-' + ('end' if from_end else 'start')])
         # numeric_enumeration membership
         for members in ([1, 2, 4, 8], [0, 3], [5, 6, 7, 31]):
             bd = {m: i for i, m in enumerate(members)}
